@@ -322,6 +322,10 @@ def run_program(fst, pi, src, tier, res, neighbourhood):
                 res.outcomes['fragment-ok'] += 1
         if neighbourhood and (hasattr(node, 'lineno') or isinstance(node, (ast.withitem, ast.comprehension))) and not is_stmtlike:
             token_neighbourhood(fst, text, node, parent, modes[0], cidp + ps, rep, res, tier)
+        if neighbourhood and isinstance(node, (ast.FunctionDef, ast.AsyncFunctionDef)):  # the parameter list has no position of its own
+            ptext = _params_text(S, src, node)
+            if ptext:
+                token_neighbourhood(fst, ptext, node.args, node, 'arguments', cidp + ps + '.args', rep, res, tier)
     list_fragments(fst, S, tree, src, cidp, rep, res)
 
 
@@ -432,7 +436,7 @@ REPL = [')', '(', ',', ':', '=', '*', '**', 'as', 'if', 'for', '\n', '#', ';']
 # two-sided injections that close whatever synthetic opening delimiter a parse wrapper may have put in front of the fragment and
 # open a new one for the wrapper's closing delimiter: balanced for a tokenizer that sees wrapper + fragment, not valid as a fragment
 ESCAPES = [')(', '][', '}{', ') (', '] [', ').x(', '].x[', ')()(', ']()[', ') as (', '): pass\nwith (', ') if (', '], [', '), (', ')=(',
-           '\\', '\\b']
+           '\\', '\\b', ') -> (', '):\n def g(', '):\n  pass\n  def h(', ')][(', ')](', ')] = x[(']
 
 
 def embed_valid(text, mode):
@@ -452,9 +456,22 @@ def embed_valid(text, mode):
         'expr_slice': [('x[\n{}\n]', lambda m: m.body[0].value.slice, 1)],
         'type_param': [('type X[\n{}\n] = _', lambda m: _solo(m.body[0].type_params), 1)],
         'comprehension': [('[_ \n{}\n]', lambda m: _solo(m.body[0].value.generators), 1)],
+        'arguments': [],
     }.get(mode)
     if tmpl is None:
         return 'unsupported'
+    if mode == 'arguments':  # no position of its own: valid iff the wrapper stays exactly what it was around it
+        full = 'def f(\n' + text + '\n): pass'
+        try:
+            m = ast.parse(full)
+        except (SyntaxError, ValueError):
+            return None
+        d = m.body[0] if len(m.body) == 1 else None
+        if not isinstance(d, ast.FunctionDef) or d.name != 'f' or d.returns or len(d.body) != 1 or not isinstance(d.body[0], ast.Pass):
+            return None
+        if (d.body[0].lineno, d.body[0].col_offset) != (full.count('\n') + 1, 3):
+            return None
+        return d.args
     try:
         S = X.Src(text)
         toks_ = S.toks
@@ -540,8 +557,27 @@ def _solo_kw(c):
     return c.keywords[0]
 
 
+def _params_text(S, src, node):
+    """Text between the parentheses of a one-line def header (None if empty or spanning lines)."""
+    i = S.tok_after(S.span(node)[0])
+    depth = 0
+    while i < len(S.toks) and not (S.toks[i][2] == '(' and depth == 0):
+        depth += {'[': 1, ']': -1}.get(S.toks[i][2], 0)
+        i += 1
+    if i >= len(S.toks):
+        return None
+    j, depth = i + 1, 1
+    while j < len(S.toks) and depth:
+        depth += {'(': 1, '[': 1, '{': 1, ')': -1, ']': -1, '}': -1}.get(S.toks[j][2], 0)
+        j += 1
+    text = src[S.toks[i][1]:S.toks[j - 1][0]]
+    if not text.strip() or '\n' in text or '#' in text:
+        return None
+    return text.strip()
+
+
 def token_neighbourhood(fst, text, node, parent, mode, cidp, rep, res, tier):
-    if mode not in ('expr', 'pattern', 'arg', 'keyword', 'alias', 'withitem', 'expr_slice', 'type_param', 'comprehension'):
+    if mode not in ('expr', 'pattern', 'arg', 'keyword', 'alias', 'withitem', 'expr_slice', 'type_param', 'comprehension', 'arguments'):
         return
     try:
         S = X.Src(text)
